@@ -268,6 +268,12 @@ def conv(f, g):
     if f == "inc":
         need(g["ty"] == INT)
         return {"k": "conv", "f": f, "g": g, "ty": INT}
+    if f == "struct":      # as_struct<S>: tuple -> struct of its elements
+        need(g["ty"]["t"] == "tup")
+        return {"k": "conv", "f": f, "g": g, "ty": tbox(g["ty"])}
+    if f == "swap":        # convert on a 2-tuple
+        need(g["ty"]["t"] == "tup" and len(g["ty"]["es"]) == 2)
+        return {"k": "conv", "f": f, "g": g, "ty": ttup([g["ty"]["es"][1], g["ty"]["es"][0]])}
     raise IllTyped()
 
 
@@ -277,6 +283,9 @@ def convif(f, g):
         return {"k": "convif", "f": f, "g": g, "ty": INT}
     if f == "nonempty":
         need(g["ty"]["t"] in ("str", "vec"))
+        return {"k": "convif", "f": f, "g": g, "ty": g["ty"]}
+    if f == "ordered":     # convert_if on a tuple of two characters
+        need(g["ty"] == ttup([CHAR, CHAR]))
         return {"k": "convif", "f": f, "g": g, "ty": g["ty"]}
     raise IllTyped()
 
@@ -384,7 +393,8 @@ LEAVES = [
 ]
 UNARY = [rep, plus, opt, not_, fatal, lexeme, named, ignore, recursive, cconst,
          lambda g: conv("code", g), lambda g: conv("len", g), lambda g: conv("box", g),
-         lambda g: convif("is_a", g), lambda g: convif("nonempty", g)]
+         lambda g: convif("is_a", g), lambda g: convif("nonempty", g),
+         lambda g: conv("struct", g), lambda g: conv("swap", g), lambda g: convif("ordered", g)]
 UNARY_NAMES = ["rep", "plus", "opt", "not", "fatal", "lexeme", "named", "ignore", "recursive", "cconst",
                "code", "len", "box", "is_a", "nonempty"]
 
@@ -528,6 +538,62 @@ def handpicked(G):
         alt(fail(), seq(P(), rep(char()))),
         seq(string("a a"), seq(P(), char())),
         alt(string("a a"), seq(P(), seq(a, seq(P(), a)))),
+        # ---- extension round
+        # error locations inside grammars: which alternatives' errors are present, in order
+        alt(seq(a, b), alt(seq(a, z), seq(cset("b"), a))),
+        alt(seq(a, fatal(b)), seq(a, z)),
+        alt(seq(a, b), fatal(seq(a, z))),
+        seq(a, alt(seq(b, z), seq(b, cset("a ")))),
+        alt(seq(cset("a"), cset("b")), alt(string("ab"), compl("ab"))),
+        seq(rep(seq(a, fatal(cset("b0")))), z),
+        opt(seq(a, fatal(alt(b, z)))),
+        alt(named(seq(a, b)), seq(a, z)),
+        alt(convif("is_a", cset("ab")), seq(b, cset("a"))),
+        alt(seq(uint(), a), seq(int_(), b)),
+        list_(a, fatal(alt(cset("b"), uint())), z, a),
+        alt(lexeme(seq(a, b)), seq(a, seq(b, z))),
+        # fatal flag through value-mapping combinators
+        alt(conv("code", fatal(cset("a"))), seq(P(), char())),
+        alt(ignore(seq(a, fatal(b))), seq(P(), rep(char()))),
+        alt(recursive(seq(cset("a"), fatal(cset("b")))), seq(P(), rep(char()))),
+        alt(cconst(seq(a, fatal(b))), seq(P(), conv("code", char()))),
+        alt(convif("is_a", fatal(cset("b"))), seq(P(), conv("code", char()))),
+        alt(lexeme(seq(a, fatal(b))), seq(P(), rep(char()))),
+        alt(plus(conv("box", seq(cset("a"), fatal(cset("b"))))), seq(P(), rep(char()))),
+        alt(sep(seq(cset("a"), fatal(cset("b"))), z), seq(P(), rep(char()))),
+        # separator / list with non-unit (tuple, variant, optional) items
+        sep(seq(cset("ab"), cset("ab")), z),
+        sep(alt(cset("a"), uint()), sp),
+        sep(seq(cset("a"), opt(cset("b"))), z),
+        list_(a, seq(cset("b"), seq(cset("0"), cset("b"))), z, a),
+        list_(a, alt(uint(), cset("b")), sp, a),
+        seq(sep(seq(cset("a"), uint()), b), P()),
+        # convert_if / construct / as_struct with tuples
+        conv("struct", seq(cset("ab"), cset("ab"))),
+        conv("struct", seq(cset("a"), seq(uint(), opt(cset("b"))))),
+        rep(conv("struct", seq(cset("a"), cset("b")))),
+        conv("swap", seq(cset("ab"), uint())),
+        convif("ordered", seq(cset("ab"), cset("ab"))),
+        alt(convif("ordered", seq(cset("ab"), cset("ab"))), seq(P(), seq(char(), char()))),
+        rep(convif("ordered", seq(cset("ab"), cset("ab")))),
+        conv("box", seq(cset("a"), seq(cset("b"), cset("0")))),
+        sep(conv("struct", seq(cset("ab"), cset("0"))), sp),
+        # the string parser under skippers (no skipping inside the string)
+        seq(string("ab"), seq(P(), string("ab"))),
+        rep(string("ab")),
+        seq(string("a b"), seq(P(), string("b"))),
+        alt(string("ab "), seq(P(), seq(string("ab"), a))),
+        sep(string("ab"), z),
+        # complement
+        rep(compl("a")),
+        seq(plus(compl(" ")), seq(P(), plus(compl(" ")))),
+        alt(seq(compl("a"), a), seq(P(), seq(compl("b"), b))),
+        sep(plus(compl("0 ")), z),
+        # float_: only success / position are judged
+        seq(float_(), seq(P(), opt(a))),
+        sep(float_(), sp),
+        alt(seq(float_(), a), seq(P(), seq(uint(), rep(char())))),
+        rep(seq(float_(), opt(b))),
     ]
     return out
 
@@ -535,7 +601,7 @@ def handpicked(G):
 def family(seed, tier):
     rng = random.Random(seed * 7919 + (1 if tier == "quick" else 2))
     G = Gen(rng)
-    target = 110 if tier == "quick" else 400
+    target = 125 if tier == "quick" else 440
     fam = []
     seen = set()
 
@@ -602,28 +668,76 @@ def skippers_for(g, idx, tier):
 # hand-built recursive grammars (grammar / make_base / make_recursive), mirrored in
 # harness/c02_main.cpp (grammar ids 9001, 9002)
 def recursive_grammars():
+    """hand-built grammars (grammar / make_base / make_recursive / base_unique_ptr), mirrored by hand in
+    harness/c02_main.cpp: 9001 tree (list), 9002 nesting depth, 9003 balanced parentheses,
+    9004 the JSON grammar of test/parse/json.cpp (objects kept as entry vectors)"""
     tree_ty = {"t": "named", "n": "tree"}
     t_list = {"k": "list", "b": lit("a"), "i": {"k": "recursive", "g": {"k": "ref", "n": "T", "ty": tree_ty}, "ty": trec(tree_ty)},
               "s": lit("0"), "e": lit("b"), "ty": tvec(trec(tree_ty))}
     g1 = {"id": 9001, "sks": ["eps"], "ps": {"T": {"k": "base", "g": {"k": "conv", "f": "box", "g": t_list, "ty": tbox(t_list["ty"])},
                                                    "ty": tbox(t_list["ty"])}},
-          "g": {"k": "ref", "n": "T", "ty": tree_ty}, "entry": "grammar"}
+          "g": {"k": "ref", "n": "T", "ty": tree_ty}, "entry": "grammar", "inputs": "std"}
     e_ref = {"k": "ref", "n": "E", "ty": INT}
     e_body = alt(conv("inc", seq(seq(lit("a"), e_ref), lit("b"))), cconst(lit("0")))
     e_body["r"]["v"] = {"t": "int", "n": 0}
-    g2 = {"id": 9002, "sks": ["space"], "ps": {"E": {"k": "base", "g": e_body, "ty": INT}}, "g": e_ref, "entry": "grammar"}
-    return [g1, g2]
+    g2 = {"id": 9002, "sks": ["space"], "ps": {"E": {"k": "base", "g": e_body, "ty": INT}}, "g": e_ref, "entry": "grammar",
+          "inputs": "std"}
+    # 9003: S -> ( 'a' S 'b' )*   balanced parentheses as a forest, space skipper
+    par_ty = {"t": "named", "n": "par"}
+    s_ref = {"k": "ref", "n": "S", "ty": par_ty}
+    s_elem = seq(seq(lit("a"), {"k": "recursive", "g": s_ref, "ty": trec(par_ty)}), lit("b"))
+    s_rep = {"k": "rep", "g": s_elem, "ty": tvec(trec(par_ty))}
+    g3 = {"id": 9003, "sks": ["space"], "ps": {"S": {"k": "base", "g": {"k": "conv", "f": "box", "g": s_rep, "ty": tbox(s_rep["ty"])},
+                                                    "ty": tbox(s_rep["ty"])}},
+          "g": s_ref, "entry": "grammar", "inputs": "std"}
+    # 9004: JSON
+    NULL, BOOL = {"t": "null"}, {"t": "bool"}
+    jv = {"t": "named", "n": "jvalue"}
+    arr_ty = tvec(trec(jv))
+    ent_ty = ttup([STR, trec(jv)])
+    obj_ty = tvec(ent_ty)
+
+    def ref(n, ty):
+        return {"k": "ref", "n": n, "ty": ty}
+
+    def kconst(g, v, ty):
+        return {"k": "cconst", "g": g, "v": v, "ty": ty}
+
+    j_string = seq(seq(lit('"'), lexeme(rep(compl('"')))), lit('"'))
+    j_value_alts = alt(alt(alt(alt(alt(kconst(string("null"), {"t": "null"}, NULL),
+                                       alt(kconst(string("true"), {"t": "bool", "b": True}, BOOL),
+                                           kconst(string("false"), {"t": "bool", "b": False}, BOOL))),
+                                   int_()), ref("string_", STR)), ref("array_", arr_ty)), ref("object_", obj_ty))
+    j_value = {"k": "conv", "f": "jvalue", "g": j_value_alts, "ty": tbox(j_value_alts["ty"])}
+    rec_value = {"k": "recursive", "g": ref("value_", jv), "ty": trec(jv)}
+    j_entry = seq(seq(ref("string_", STR), lit(":")), rec_value)
+    j_object = {"k": "convif", "f": "uniqkeys", "g": seq(seq(lit("{"), {"k": "sep", "i": j_entry, "s": lit(","), "ty": tvec(j_entry["ty"])}), lit("}")),
+                "ty": obj_ty}
+    j_array = seq(seq(lit("["), {"k": "sep", "i": rec_value, "s": lit(","), "ty": arr_ty}), lit("]"))
+    j_start = alt(ref("array_", arr_ty), ref("object_", obj_ty))
+
+    def base(g):
+        return {"k": "base", "g": g, "ty": g["ty"]}
+
+    g4 = {"id": 9004, "sks": ["space"], "entry": "grammar", "inputs": "json",
+          "ps": {"string_": base(j_string), "value_": base(j_value), "object_": base(j_object), "array_": base(j_array),
+                 "start_": base(j_start)},
+          "g": ref("start_", j_start["ty"])}
+    return [g1, g2, g3, g4]
 
 
 def emit(seed, tier, outdir, ntu=16):
     fam = family(seed, tier)
     grammars = []
     for i, g in enumerate(fam):
-        grammars.append({"id": i + 1, "g": g, "ps": {}, "sks": skippers_for(g, i, tier), "entry": "string"})
+        grammars.append({"id": i + 1, "g": g, "ps": {}, "sks": skippers_for(g, i, tier), "entry": "string", "inputs": "std",
+                         # wchar_t: every grammar in thorough, every 5th (rotating with the seed) in quick
+                         "wide": tier != "quick" or (i + seed) % 5 == 0,
+                         # the stream that turns bad at the end of the grammar: every 3rd grammar, epsilon skipper
+                         "bad": (i + seed) % 3 == 1})
     doc = {"seed": seed, "tier": tier, "skippers": SKIPPERS, "grammars": grammars, "recursive": recursive_grammars()}
     with open(outdir + "/grammars.json", "w") as f:
         json.dump(doc, f, separators=(",", ":"))
-    chs = ["char"] if tier == "quick" else ["char", "wchar_t"]
     files = []
     for t in range(ntu):
         mine = [x for j, x in enumerate(grammars) if j % ntu == t]
@@ -635,9 +749,11 @@ def emit(seed, tier, outdir, ntu=16):
         src.append("void c02_run_tu_%d(c02::runner &_r)" % t)
         src.append("{")
         for x in mine:
-            for ch in chs:
+            for ch in (["char", "wchar_t"] if x["wide"] else ["char"]):
                 for sk in x["sks"]:
                     src.append('  c02::run<%s>(_r, %d, make_g%d<%s>(), c02::sk_%s<%s>(), "%s");' % (ch, x["id"], x["id"], ch, sk, ch, sk))
+            if x["bad"]:
+                src.append('  c02::run_bad<char>(_r, %d, make_g%d<char>());' % (x["id"], x["id"]))
         src.append("}")
         p = "%s/c02_gen_%d.cpp" % (outdir, t)
         txt = "\n".join(src) + "\n"
